@@ -448,6 +448,9 @@ func cmdReplay(args []string) {
 	}
 	if len(args) > 1 && args[1] == "--debug" {
 		sim.DebugReplay = true
+		if len(args) > 2 {
+			sim.DebugFrom, _ = strconv.ParseInt(args[2], 10, 64)
+		}
 	}
 	tr := loadTrace(args[0])
 	if tr == nil {
